@@ -262,7 +262,19 @@ func c14Multi(c *core.Ctx, rng *rand.Rand, dir string, idx int) {
 			c.Violate("stream-depends-on-configuration", fmt.Sprintf("watcher %d (buffer %d, %d other measured, interfering watchers present) delivered a stream different from the kernel log: %s; tail %v", j, cfgs[j], k-1, d.Diff, d.Log), d)
 		}
 		if reps[j].Hang != "" {
-			c.Inconclusive("barrier watchdog: " + hangClass(reps[j].Hang))
+			// decided on what was received, not on the clock: a measured Watcher that stalls AND has put
+			// values other than the overflow error on Errors differs from the kernel log
+			var es []string
+			for _, e := range reps[j].Errors {
+				if e != fsnotify.ErrEventOverflow.Error() {
+					es = append(es, e)
+				}
+			}
+			if len(es) > 0 {
+				c.Violate("stalled-with-errors", fmt.Sprintf("watcher %d (buffer %d) never delivered its sentinel and put %v on Errors; history tail %v", j, cfgs[j], es, reps[j].HangLog), nil)
+			} else {
+				c.Inconclusive("barrier watchdog: " + hangClass(reps[j].Hang))
+			}
 		}
 	}
 	c.Count("events_received", int64(total))
